@@ -1,24 +1,34 @@
 """C16 -- queue policies conserve recipients and content.
 
-The real ``slimta.queue.Queue(store=<recording DictStorage>, relay=None)`` runs a generated
-chain of the real built-in policies on a generated envelope; the monitor records every
-envelope handed to ``QueueStorage.write`` during that one ``enqueue`` call.
+The real ``slimta.queue.Queue(store=<recording DictStorage>, relay=None[, store_pool=n])`` runs a
+generated chain of the real built-in policies on a generated envelope; the monitor records every
+envelope handed to ``QueueStorage.write`` during that one ``enqueue`` call.  A second, independently
+built queue runs the same chain through ``Queue._run_policies`` directly (cross-check of the two
+entry points).
 
-Events that refute (each is an oracle clause, see ``judge``):
+Events that refute (each is an oracle clause, see ``judge_round``):
   rcpts        multiset of recipients over the written envelopes != multiset of the expected
                (rewritten) recipients; the expected rewriting is ``ref_forward`` below, an
-               independent restatement of "first matching rule wins"
+               independent restatement of "first matching rule wins".  A rule whose result would be
+               the empty string is judged under both readings (rule skipped / search stops, recipient
+               unchanged); an address that comes out as '' is never accepted
   sender/body  a written envelope with another sender or another body
-  orig-headers an original header missing / altered / reordered in a written envelope
-  date/mid     Date / Message-Id added although present, or missing although absent and the
+  orig-headers an original header missing / altered / reordered in a written envelope (parsed
+               items, then the raw field bytes of ``flatten()``)
+  date/mid     Date / Message-Id added although present (also: present with an empty value, present
+               twice), or missing although absent (also: only look-alike names present) and the
                policy is in the chain, or present although nobody should have added it
   received     the n new Received headers are not the first n headers
   alias        mutating recipients / headers / client of one written envelope changes another;
                id()-graph walk finds a mutable object reachable from two written envelopes;
                the same envelope object written twice
-  crash        enqueue raised
+  crash        enqueue (or flatten of a written envelope) raised
+  reuse-*      any of the above on a second enqueue of an equal envelope on the same Queue (same
+               policy objects) that did not occur on the first
+  direct-*     Queue._run_policies called directly disagrees with the above / with what enqueue wrote
 """
 import re
+import json
 import random
 import itertools
 import collections
@@ -34,42 +44,59 @@ from slimta.policy.headers import AddDateHeader, AddMessageIdHeader, AddReceived
 
 PROPERTY = 'C16'
 LEVEL = 'exploration'
-LEVEL_TEXT = ('Real Queue._run_policies/enqueue with the real built-in policies and a recording DictStorage: '
-              'every chain of length <= 3 (quick) / <= 4 (thorough) over 9 policy kinds, each with several '
-              'seeded recipient lists / forwarding rule sets / header blocks, plus seeded random chains of '
-              'length 0..5; conservation, header and aliasing clauses judged on every enqueue. Held = held on '
-              'the enqueues reported, not a proof for longer chains or other rule sets.')
-LEVEL_NOTE = ('Trusted: the recording wrapper (3 lines), ref_forward (6 lines, uses re.subn like the '
-              'implementation but its own control flow), the multiset/ header/ aliasing comparisons.')
+LEVEL_TEXT = ('Real Queue.enqueue (and Queue._run_policies directly) with the real built-in policies and a '
+              'recording DictStorage: every chain of length <= 3 (quick) / <= 4 (thorough) over 10 policy kinds, '
+              'each with several seeded recipient lists / forwarding rule sets / header blocks / client dicts, '
+              'plus seeded random chains of length 0..8 over 11 kinds; with and without a store pool, with shared '
+              'policy objects, and a second enqueue on the same queue; conservation, header and aliasing clauses '
+              'judged on every enqueue. Held = held on the enqueues reported, not a proof for longer chains or '
+              'other rule sets.')
+LEVEL_NOTE = ('Trusted: the recording wrapper (3 lines), ref_forward (10 lines, uses re.subn like the '
+              'implementation but its own control flow), the multiset / header / raw-field / aliasing comparisons.')
 TECHNIQUE = ('runtime monitoring: record envelopes reaching QueueStorage.write for one enqueue; multiset '
-             'conservation oracle + mutation/aliasing probe + id()-graph walk; witnesses are shrunk before '
-             'classification')
-RULE = ('case = (chain of policy specs, recipient list, original header block, body); one enqueue on a fresh '
-        'real Queue = one evaluation. Chains: exhaustive over 9 kinds {split, domsplit, forward(rule set), '
-        'date, mid, received, ident(returns [env]), none(returns None), peel(returns [env, copy] after moving '
-        'one recipient)} up to the tier length, then seeded random length 0..5. Recipients: 0..8 drawn with '
-        'replacement from a small pool (duplicates, mixed-case domains, no "@", empty domain, two "@", up to '
-        '8 domains). Forward rules drawn from a pool whose replacements can never be empty. non-trivial & '
-        'distinct = distinct (chain kinds, recipient list) whose chain has >= 1 split/domsplit/peel and whose '
-        'recipient list has >= 2 distinct lower-cased domains or a duplicate')
-ASSUMPTIONS = ['generated forwarding rules never produce an empty replacement (documented behaviour and the '
-               'implementation\'s "non-empty result" condition cannot disagree)',
+             'conservation oracle + mutation/aliasing probe + id()-graph walk + raw header field comparison; '
+             'witnesses are shrunk before classification')
+RULE = ('case = (chain of policy specs, recipient list, original header block, body, client dict, store pool, '
+        'shared policy objects y/n, second enqueue y/n); one enqueue on a real Queue = one evaluation. Chains: '
+        'exhaustive over 10 kinds {split, domsplit, forward(rule set), date, mid, received, ident(returns [env]), '
+        'none(returns None), peel(returns [env, copy] after moving one recipient), genpeel(the same as a generator '
+        'function, yields nothing below 2 recipients)} up to the tier length, then seeded random length 0..8 (also '
+        'tuppeel: returns a tuple). Recipients: 0..8 (sometimes 12..40) drawn with replacement from a small pool '
+        '(duplicates, mixed-case domains, no "@", empty domain, empty string, two "@", UTF-8 local parts and '
+        'domains, up to 8 domains). Forward rules: str or compiled patterns (with flags), str or function '
+        'replacements, count 0/1/2, rules whose result is the empty string. Header blocks: plain, or odd (empty '
+        'valued / repeated Date and Message-Id, look-alike names, folded, 8-bit, RFC 2047, bare-LF, a line that '
+        'is no header, none). non-trivial & distinct = distinct (chain kinds, recipient list) whose chain has >= 1 '
+        'split/domsplit/peel/genpeel/tuppeel and whose recipient list has >= 2 distinct lower-cased domains or a '
+        'duplicate')
+ASSUMPTIONS = ['a forwarding rule whose result is the empty string: the documentation ("no further rules are '
+               'processed") and the implementation (rule skipped, later rules tried) disagree; both outcomes '
+               'are accepted, the empty address is not',
                'the storage backend is DictStorage, which stores the envelope object it is given (so the '
                'objects recorded at write() are the ones the queue would later relay)',
                'the policy object email.policy.SMTP referenced by every header block is treated as immutable '
-               'and not followed by the id()-graph walk']
+               'and not followed by the id()-graph walk',
+               'user policies in the documented forms only: return None / a list / a tuple, or generate '
+               '(QueuePolicy.apply: "Optionally return or generate an iterable of Envelope objects")']
 REQUIRED_HITS = ['write-recorded', 'rcpt-multiset-compared', 'sender-body-compared', 'alias-probed',
-                 'idgraph-walked', 'date-mid-judged', 'received-judged', 'unmatched-unchanged-judged']
+                 'idgraph-walked', 'date-mid-judged', 'received-judged', 'unmatched-unchanged-judged',
+                 'odd-header-block-judged', 'header-bytes-compared', 'utf8-rcpt-judged',
+                 'empty-result-rule-judged', 'compiled-pattern-judged', 'second-enqueue-judged',
+                 'direct-path-compared', 'generator-form-judged', 'sparse-client-received-judged',
+                 'store-pool-enqueue-judged', 'shared-policy-object-judged']
 SHARDS = {'quick': 8, 'thorough': 16}
-BUDGET = {'quick': 45, 'thorough': 800}
+BUDGET = {'quick': 55, 'thorough': 800}
 
-KINDS = ['split', 'domsplit', 'forward', 'date', 'mid', 'received', 'ident', 'none', 'peel']
+KINDS = ['split', 'domsplit', 'forward', 'date', 'mid', 'received', 'ident', 'none', 'peel', 'genpeel']
+RAND_KINDS = KINDS + ['tuppeel']
+SPLITTERS = ('split', 'domsplit', 'peel', 'genpeel', 'tuppeel')
 EXH_LEN = {'quick': 3, 'thorough': 4}
 PER_CHAIN = {'quick': 6, 'thorough': 12}
-NRANDOM = {'quick': 24000, 'thorough': 250000}
+NRANDOM = {'quick': 16000, 'thorough': 250000}
 
-# (pattern, replacement, count).  No replacement can make the whole recipient empty:
-# every replacement text contains at least one literal character.
+# (pattern, replacement, count[, flags]).  flags: 'c' = handed to add_mapping as a compiled pattern,
+# 'ci' = compiled with re.IGNORECASE.  Rules of RULE_POOL can never make the whole recipient empty
+# (every replacement text contains a literal character); those of EMPTY_POOL can.
 RULE_POOL = [
     (r'^(.*)@old\.test$', r'\1@new.test', 0),
     (r'^alias@', 'real@', 0),
@@ -85,19 +112,70 @@ RULE_POOL = [
     (r'^(.+)@e(\d)\.test$', r'\1+e\2@old.test', 0),
     (r'^never-matches-anything$', 'zz@zz.test', 0),
 ]
+RULE_POOL2 = RULE_POOL + [
+    (r'a', 'bb', 2),
+    (r'@e1\.test$', '@E-one.test', 0, 'ci'),      # only matches E1.TEST through the compiled flag
+    (r'^(.*)@d1\.test$', r'\1@c-d1.test', 0, 'c'),
+    (r'^A@', 'upper-a@', 0, 'c'),
+    (r'@dömain\.test$', '@idn.test', 0),
+    (r'^ü@', 'ue@', 0, 'ci'),
+    (r'@.*$', '', 0),                             # strips the domain: result never empty here
+]
+EMPTY_POOL = [
+    (r'^alias@.*$', '', 0),
+    (r'^.*@old\.test$', '', 0),
+    (r'.+', '', 0),
+    (r'^nodomain\d$', '', 1),
+    (r'[^@]+@(?:d1|e\d)\.test', 'FN:empty', 0),
+]
 LOCALS = ['a', 'b', 'alias', 'x1', 'c', 'A', 'a@b']
 DOMAINS = ['d1.test', 'D1.test', 'old.test', 'd3.test', 'D3.Test', '', 'e1.test', 'e2.test', 'e3.test',
            'E1.TEST', 'e4.test', 'e5.test']
+LOCALS2 = LOCALS + ['ü', 'Ωmega', 'alias']
+DOMAINS2 = DOMAINS + ['dömain.test', 'DÖMAIN.test', 'ω.test', 'old.test']
 DATE_NAMES = ['Date', 'date', 'DATE']
 MID_NAMES = ['Message-Id', 'Message-ID', 'message-id']
+
+ODD_DATE = [b'Date:\r\n', b'Date: \r\n', b'date:\r\n', b'Date: keep-date\r\n', b'DATE: k1\r\nDate: k2\r\n',
+            b'Date:\r\n Thu, 1 Jan 1970\r\n\t00:00:00 +0000\r\n']
+ODD_MID = [b'Message-Id:\r\n', b'Message-ID: \r\n', b'message-id:\r\n', b'Message-Id: <keep@x>\r\n',
+           b'Message-ID: <k1@x>\r\nMessage-Id: <k2@x>\r\n', b'Message-Id:\r\n <folded@x>\r\n']
+NEAR_MISS = [b'X-Date: 1\r\n', b'Resent-Date: 2\r\n', b'Resent-Message-Id: <r@x>\r\n', b'Message-Id-X: 1\r\n',
+             b'Dated: 1\r\n', b'Subject: x\r\n Date: not-a-header\r\n', b'X-Note: message-id: <n@x> date: none\r\n',
+             b'X-Message-Id: <x@x>\r\n', b'Delivery-Date: 3\r\n']
+ODD_OTHER = [b'Subject: a\r\n folded\r\n\tmore\r\n', b'Subject: ' + b'long ' * 60 + b'\r\n',
+             b'Subject: caf\xc3\xa9\r\n', b'X-Bin: \xff\xfe\r\n', b'From: "J\xf6rg" <j@x.test>\r\n',
+             b'X-Sep: a\xe2\x80\xa8b\xc2\x85c\r\n', b'Subject: =?utf-8?q?caf=C3=A9?=\r\n', b'X-Empty:\r\n',
+             b'Received: old hop 1\r\n', b'Received: from a by b;\r\n Thu, 1 Jan 1970 00:00:00 +0000\r\n',
+             b'To: a@x.test,\r\n b@x.test\r\n', b'X-Tab:\tv\r\n', b'x-lower: v\r\n']
+GARBAGE = [b'no colon line\r\n', b' leading continuation\r\n', b'>From x\r\n']
+CLIENTS = [
+    {'ip': '192.0.2.1', 'name': 'c.test', 'host': 'h.test', 'protocol': 'ESMTP', 'auth': None},
+    {},
+    {'ip': '192.0.2.1'},
+    {'ip': None, 'name': None, 'host': None, 'protocol': None, 'auth': None},
+    {'name': 'c.test', 'protocol': 'ESMTPSA', 'auth': 'user'},
+]
 
 
 def _fn_upper(m):
     return m.group(0).upper()
 
 
+def _fn_empty(m):
+    return ''
+
+
 def _repl(r):
-    return _fn_upper if r == 'FN:upper' else r
+    return _fn_upper if r == 'FN:upper' else _fn_empty if r == 'FN:empty' else r
+
+
+def _flags(rule):
+    return rule[3] if len(rule) > 3 else ''
+
+
+def _compiled(rule):
+    return re.compile(rule[0], re.IGNORECASE if 'i' in _flags(rule) else 0)
 
 
 class Ident(QueuePolicy):
@@ -120,6 +198,33 @@ class Peel(QueuePolicy):
         return [envelope, envelope.copy([last])]
 
 
+class TupPeel(QueuePolicy):
+    """Peel returning a tuple (an iterable that is not a list)."""
+    def apply(self, envelope):
+        if len(envelope.recipients) < 2:
+            return ()
+        last = envelope.recipients.pop()
+        return (envelope, envelope.copy([last]))
+
+
+class GenPeel(QueuePolicy):
+    """Peel written as a generator function (QueuePolicy.apply: "return or generate an iterable"):
+    yields nothing when there is nothing to peel.  ``outs`` / ``empty_calls`` are read by the
+    classifier only."""
+    def __init__(self):
+        self.outs = []
+        self.empty_calls = 0
+
+    def apply(self, envelope):
+        if len(envelope.recipients) < 2:
+            self.empty_calls += 1
+            return
+        last = envelope.recipients.pop()
+        for e in (envelope, envelope.copy([last])):
+            self.outs.append(e)
+            yield e
+
+
 class Rec(DictStorage):
     """The monitor: records what reaches QueueStorage.write."""
     def __init__(self):
@@ -131,26 +236,39 @@ class Rec(DictStorage):
         return super(Rec, self).write(envelope, timestamp)
 
 
-def ref_forward(rules, rcpt):
-    """Independent restatement of Forward: the first rule that matches rewrites, nothing else does."""
-    for pat, repl, count in rules:
-        new, n = re.compile(pat).subn(_repl(repl), rcpt, count)
+def ref_forward(rules, rcpt, on_empty='skip'):
+    """Independent restatement of Forward: the first rule that matches rewrites, nothing else does.
+    A match whose result is '' is never applied: on_empty='skip' tries the later rules (what the
+    implementation does), 'stop' ends the search with the recipient unchanged (the documentation)."""
+    for rule in rules:
+        new, n = _compiled(rule).subn(_repl(rule[1]), rcpt, rule[2])
         if n > 0:
+            if new == '':
+                if on_empty == 'skip':
+                    continue
+                return rcpt
             return new
     return rcpt
 
 
 # ------------------------------------------------------------------ generation
 
-def mk_rcpt(rnd):
-    if rnd.random() < 0.12:
+def mk_rcpt(rnd, wide):
+    x = rnd.random()
+    if x < 0.12:
         return 'nodomain%d' % rnd.randrange(3)
+    if wide and x < 0.14:
+        return ''
+    if wide:
+        return rnd.choice(LOCALS2) + '@' + rnd.choice(DOMAINS2)
     return rnd.choice(LOCALS) + '@' + rnd.choice(DOMAINS)
 
 
-def mk_rcpts(rnd):
+def mk_rcpts(rnd, wide):
     n = rnd.choice([0, 1, 1, 2, 2, 3, 3, 4, 5, 6, 7, 8])
-    pool = [mk_rcpt(rnd) for _ in range(rnd.choice([1, 2, 3, 5, 8, 8]))]
+    if wide and rnd.random() < 0.03:
+        n = rnd.choice([12, 24, 40])
+    pool = [mk_rcpt(rnd, wide) for _ in range(rnd.choice([1, 2, 3, 5, 8, 8]))]
     return [rnd.choice(pool) for _ in range(n)]
 
 
@@ -171,16 +289,56 @@ def mk_headers(rnd):
     return h
 
 
-def mk_spec(kind, rnd):
+def mk_odd_headers(rnd):
+    """(list of raw header fields, bare-LF flag)."""
+    f = []
+    if rnd.random() < 0.45:
+        f.append(rnd.choice(ODD_DATE))
+    if rnd.random() < 0.45:
+        f.append(rnd.choice(ODD_MID))
+    for _ in range(rnd.choice([0, 1, 1, 2])):
+        f.append(rnd.choice(NEAR_MISS))
+    for _ in range(rnd.choice([0, 1, 2, 3])):
+        f.append(rnd.choice(ODD_OTHER))
+    rnd.shuffle(f)
+    if rnd.random() < 0.08:
+        f.insert(rnd.randrange(len(f) + 1), rnd.choice(GARBAGE))
+    return f, rnd.random() < 0.12
+
+
+def mk_spec(kind, rnd, wide):
     if kind == 'forward':
-        rules = [list(r) for r in rnd.sample(RULE_POOL, rnd.choice([0, 1, 1, 2, 3, 4]))]
+        if not wide:
+            rules = [list(r) for r in rnd.sample(RULE_POOL, rnd.choice([0, 1, 1, 2, 3, 4]))]
+        else:
+            rules = [list(r) for r in rnd.sample(RULE_POOL2, rnd.choice([0, 1, 1, 2, 3, 4]))]
+            if rnd.random() < 0.4:
+                rules.insert(rnd.randrange(len(rules) + 1), list(rnd.choice(EMPTY_POOL)))
+            if rnd.random() < 0.3:
+                rules = [r if len(r) > 3 else r + ['c'] for r in rules]
         return ['forward', rules]
     return [kind]
 
 
 def mk_case(kinds, rnd, origin):
-    return {'chain': [mk_spec(k, rnd) for k in kinds], 'rcpts': mk_rcpts(rnd), 'headers': mk_headers(rnd),
-            'body': rnd.choice([b'body \xff\r\n', b'', b'l1\r\n.\r\nl3', b'\r\n\r\nx\r\n']), 'origin': origin}
+    case = {'chain': None, 'rcpts': None, 'headers': None,
+            'body': None, 'origin': origin}
+    wide = rnd.random() < 0.5
+    case['chain'] = [mk_spec(k, rnd, wide) for k in kinds]
+    case['rcpts'] = mk_rcpts(rnd, wide)
+    plain = mk_headers(rnd)
+    case['body'] = rnd.choice([b'body \xff\r\n', b'', b'l1\r\n.\r\nl3', b'\r\n\r\nx\r\n'])
+    if rnd.random() < 0.5:
+        del case['headers']
+        case['hfields'], case['lf'] = mk_odd_headers(rnd)
+    else:
+        case['headers'] = plain
+    case['client'] = rnd.choice([0, 0, 0, 1, 2, 3, 4])
+    case['pool'] = rnd.choice([None, None, None, 1, 3])
+    case['share'] = rnd.random() < 0.3
+    case['twice'] = rnd.random() < 0.25
+    case['direct'] = rnd.random() < 0.5
+    return case
 
 
 def gen_cases(tier, seed, shard, nshards):
@@ -194,7 +352,7 @@ def gen_cases(tier, seed, shard, nshards):
                 n += 1
     rnd = random.Random('c16r-%d-%d' % (seed, shard))
     for _ in range(NRANDOM[tier] // nshards):
-        kinds = [rnd.choice(KINDS) for _ in range(rnd.randrange(0, 6))]
+        kinds = [rnd.choice(RAND_KINDS) for _ in range(rnd.choice([0, 1, 2, 3, 4, 5, 1, 2, 3, 4, 5, 6, 7, 8]))]
         yield mk_case(kinds, rnd, 'rand')
 
 
@@ -208,8 +366,8 @@ def build_policy(spec):
         return RecipientDomainSplit()
     if k == 'forward':
         f = Forward()
-        for pat, repl, count in spec[1]:
-            f.add_mapping(pat, _repl(repl), count)
+        for rule in spec[1]:
+            f.add_mapping(_compiled(rule) if 'c' in _flags(rule) else rule[0], _repl(rule[1]), rule[2])
         return f
     if k == 'date':
         return AddDateHeader()
@@ -223,16 +381,44 @@ def build_policy(spec):
         return NoneP()
     if k == 'peel':
         return Peel()
+    if k == 'tuppeel':
+        return TupPeel()
+    if k == 'genpeel':
+        return GenPeel()
     raise ValueError(k)
 
 
+def build_chain(case, share=None):
+    """The policy objects of the chain; with 'share', equal specs are one object added several times."""
+    share = case.get('share') if share is None else share
+    made = {}
+    out = []
+    for spec in case['chain']:
+        key = json.dumps(spec)
+        if share and key in made:
+            out.append(made[key])
+            continue
+        p = build_policy(spec)
+        made[key] = p
+        out.append(p)
+    return out
+
+
+def header_fields(case):
+    if 'hfields' in case:
+        return list(case['hfields'])
+    return [('%s: %s\r\n' % (n, v)).encode('ascii') for n, v in case['headers']]
+
+
 def build_envelope(case):
-    raw = b''.join(('%s: %s\r\n' % (n, v)).encode('ascii') for n, v in case['headers'])
+    raw = b''.join(header_fields(case)) + b'\r\n'
+    if case.get('lf'):
+        raw = raw.replace(b'\r\n', b'\n')
     env = Envelope('snd@x.test', list(case['rcpts']))
-    env.parse(raw + b'\r\n' + case['body'])
+    env.parse(raw + case['body'])
     env.receiver = 'me.test'
     env.timestamp = 1234567890.0
-    env.client = {'ip': '192.0.2.1', 'name': 'c.test', 'host': 'h.test', 'protocol': 'ESMTP', 'auth': None}
+    env.client = dict(CLIENTS[case.get('client', 0)])
     return env
 
 
@@ -240,8 +426,24 @@ def hdr_items(env):
     return [(str(k), str(v)) for k, v in env.headers.items()]
 
 
+def raw_fields(hb):
+    """The raw header fields of a flattened header block (continuation lines stay with their field)."""
+    lines = hb.split(b'\r\n')
+    while lines and lines[-1] == b'':
+        lines.pop()
+    out = []
+    for ln in lines:
+        if out and ln[:1] in (b' ', b'\t'):
+            out[-1] += b'\r\n' + ln
+        else:
+            out.append(ln)
+    return out
+
+
 def snapshot(env):
-    return (list(env.recipients), hdr_items(env), dict(env.client), env.sender, env.message)
+    # the header list as stored (name, source text), not re-parsed: the probe takes ~3*n*n snapshots
+    return (list(env.recipients), [(k, str(v)) for k, v in env.headers._headers], dict(env.client),
+            env.sender, env.message)
 
 
 def mutable_ids(env):
@@ -268,52 +470,67 @@ def mutable_ids(env):
     return seen
 
 
-def evaluate(case):
-    """Run the real queue once and judge.  Returns (problems, info); problems is a list of
-    (clause, what, detail)."""
+def expected_recipients(case):
+    """(expected under 'skip', expected under 'stop', Counter of never-matched originals, did a rule
+    produce an empty result)."""
     chain = case['chain']
-    kinds = [s[0] for s in chain]
-    env = build_envelope(case)
+    flows = {}
+    touched = [False] * len(case['rcpts'])
+    emptied = False
+    for sem in ('skip', 'stop'):
+        cur = list(case['rcpts'])
+        for spec in chain:
+            if spec[0] != 'forward':
+                continue
+            for i, r in enumerate(cur):
+                for rule in spec[1]:
+                    new, n = _compiled(rule).subn(_repl(rule[1]), r, rule[2])
+                    if n > 0:
+                        touched[i] = True
+                        if new == '':
+                            emptied = True
+            cur = [ref_forward(spec[1], r, sem) for r in cur]
+        flows[sem] = cur
+    if any(s[0] == 'forward' and s[1] for s in chain):
+        unmatched = collections.Counter(r for r, t in zip(case['rcpts'], touched) if not t)
+    else:
+        unmatched = collections.Counter()
+    return flows['skip'], flows['stop'], unmatched, emptied
+
+
+def judge_round(case, q, st, env, exp, info):
+    """One enqueue of env on q, judged.  Returns the list of (clause, what, detail)."""
+    kinds = [s[0] for s in case['chain']]
+    expected, expected_stop, unmatched, _ = exp
     orig_items = hdr_items(env)
     orig_body = env.message
     orig_names = [k.lower() for k, _ in orig_items]
-    st = Rec()
-    q = Queue(st, relay=None)
-    for spec in chain:
-        q.add_policy(build_policy(spec))
-    # expected rewriting, and which input recipients no rule of any Forward ever matches
-    expected = list(case['rcpts'])
-    touched = [False] * len(expected)
-    for spec in chain:
-        if spec[0] == 'forward':
-            for i, r in enumerate(expected):
-                if any(re.compile(p).search(r) for p, _, _ in spec[1]):
-                    touched[i] = True
-            expected = [ref_forward(spec[1], r) for r in expected]
-    unmatched = collections.Counter(r for r, t in zip(case['rcpts'], touched) if not t) \
-        if any(s[0] == 'forward' and s[1] for s in chain) else collections.Counter()
+    orig_fields = raw_fields(env.flatten()[0])
     probs = []
-    info = {'written': 0, 'kinds': kinds}
+    st.w = []
     try:
         res = q.enqueue(env)
     except Exception as e:
         probs.append(('crash', 'enqueue raised %s' % type(e).__name__, {'exc': repr(e)[:200]}))
-        return probs, info
+        return probs
     w = st.w
     info['written'] = len(w)
     info['returned'] = len(res)
+    info['w'] = w
     if len(w) == 0:
         probs.append(('rcpts', 'nothing was written', {}))
-        return probs, info
+        return probs
     # --- recipients: multiset conservation
     got = collections.Counter(r for _, rc in w for r in rc)
-    exp = collections.Counter(expected)
+    exp_c = collections.Counter(expected)
     info['got'] = sorted(got.elements())
-    if got != exp:
-        missing = sorted((exp - got).elements())
-        extra = sorted((got - exp).elements())
+    if got != exp_c and got != collections.Counter(expected_stop):
+        missing = sorted((exp_c - got).elements())
+        extra = sorted((got - exp_c).elements())
         kind = 'altered' if missing and extra else 'lost' if missing else 'duplicated'
-        if (collections.Counter(missing) & unmatched):
+        if '' in extra and '' not in case['rcpts']:
+            kind = 'emptied'                # an address was rewritten to the empty string
+        elif (collections.Counter(missing) & unmatched):
             kind = 'unmatched-' + kind      # a recipient that matches no rule did not come out unchanged
         probs.append(('rcpts', 'recipient %s: missing %r extra %r' % (kind, missing, extra),
                       {'kind': kind, 'missing': missing, 'extra': extra, 'expected': sorted(expected),
@@ -329,13 +546,20 @@ def evaluate(case):
     n_recv = kinds.count('received')
     had_date = 'date' in orig_names
     had_mid = 'message-id' in orig_names
+    n_app = (1 if not had_date and 'date' in kinds else 0) + (1 if not had_mid and 'mid' in kinds else 0)
     for e, _ in w:
         if e.sender != 'snd@x.test':
             probs.append(('sender', 'sender differs: %r' % (e.sender,), {}))
-        hb, body = e.flatten()
+        try:
+            hb, body = e.flatten()
+        except Exception as ex:
+            probs.append(('crash', 'flatten() of a written envelope raised %s' % type(ex).__name__,
+                          {'kind': 'flatten', 'exc': repr(ex)[:200]}))
+            continue
         if body != orig_body or e.message != orig_body:
             probs.append(('body', 'body differs', {'got': body, 'expected': orig_body}))
         items = hdr_items(e)
+        n_before = len(probs)
         # --- Received first
         new_recv = items[:n_recv]
         if n_recv and not (len(new_recv) == n_recv and
@@ -369,6 +593,14 @@ def evaluate(case):
         rest = [(k, v) for k, v in rest if k.lower() not in added]
         if rest != orig_items:
             probs.append(('orig-headers', 'original headers not preserved', {'got': rest, 'orig': orig_items}))
+        elif len(probs) == n_before:
+            # the same on the wire form: new Received fields, the original fields byte for byte, appended fields
+            fields = raw_fields(hb)
+            info['bytes_compared'] = info.get('bytes_compared', 0) + 1
+            if len(fields) != n_recv + len(orig_fields) + n_app or \
+                    fields[n_recv:n_recv + len(orig_fields)] != orig_fields:
+                probs.append(('orig-headers', 'original header fields not preserved byte for byte',
+                              {'kind': 'bytes', 'got': fields, 'orig': orig_fields}))
     # --- aliasing: object identity
     objs = [e for e, _ in w]
     if len(set(id(e) for e in objs)) != len(objs):
@@ -413,6 +645,67 @@ def evaluate(case):
                                   {'how': 'idgraph/' + re.sub(r'[\[\]\(\)\{\}]+', '', path)}))
                     break
                 owner[oid] = (i, path)
+        # observation only (the statement is about the envelopes produced, not the discarded input)
+        if all(env is not o for o in objs):
+            info['input_shared'] = any(oid in owner for oid in mutable_ids(env))
+    return probs
+
+
+def evaluate(case, spy=None):
+    """Run the real queue and judge.  Returns (problems, info); problems is a list of
+    (clause, what, detail).  spy: dict filled with classifier evidence (calls seen by each policy)."""
+    chain = case['chain']
+    kinds = [s[0] for s in chain]
+    info = {'written': 0, 'kinds': kinds}
+    exp = expected_recipients(case)
+    info['emptied'] = exp[3]
+    st = Rec()
+    q = Queue(st, relay=None, store_pool=case.get('pool') or None)
+    pols = build_chain(case)
+    if spy is not None:
+        spy['pols'] = pols
+        spy['calls'] = calls = []
+        for p in set(pols):
+            def wrapped(envelope, _p=p, _orig=p.apply):
+                calls.append((id(_p), id(envelope)))
+                return _orig(envelope)
+            p.apply = wrapped
+    for p in pols:
+        q.add_policy(p)
+    probs = judge_round(case, q, st, build_envelope(case), exp, info)
+    first = set(c for c, _, _ in probs)
+    w0 = info.get('w')
+    if case.get('twice'):
+        info2 = {}
+        p2 = judge_round(case, q, st, build_envelope(case), exp, info2)
+        info['second'] = True
+        probs.extend(('reuse-' + c, what, d) for c, what, d in p2 if c not in first)
+    if case.get('direct') and spy is None:
+        # the other entry point, on a queue and policy objects of its own
+        q2 = Queue(Rec(), relay=None)
+        for p in build_chain(case):
+            q2.add_policy(p)
+        try:
+            direct = list(q2._run_policies(build_envelope(case)))
+        except Exception as e:
+            direct = None
+            if 'crash' not in first:
+                probs.append(('direct-crash', '_run_policies raised %s' % type(e).__name__, {'exc': repr(e)[:200]}))
+        if direct is not None:
+            info['direct'] = True
+            dgot = collections.Counter(r for e in direct for r in e.recipients)
+            if 'rcpts' not in first and dgot != collections.Counter(exp[0]) and dgot != collections.Counter(exp[1]):
+                probs.append(('direct-rcpts', '_run_policies result does not conserve the recipients',
+                              {'got': sorted(dgot.elements()), 'expected': sorted(exp[0])}))
+            if 'alias' not in first and len(set(id(e) for e in direct)) != len(direct):
+                probs.append(('direct-alias', '_run_policies returned the same envelope object twice', {}))
+            if not probs and w0 is not None:
+                a = [(list(e.recipients), [k for k, _ in hdr_items(e)]) for e in direct]
+                b = [(rc, [k for k, _ in hdr_items(e)]) for e, rc in w0]
+                if a != b:
+                    probs.append(('direct-vs-enqueue', 'enqueue did not write what _run_policies returns',
+                                  {'direct': a, 'written': b}))
+    info.pop('w', None)
     return probs, info
 
 
@@ -429,9 +722,13 @@ def rcpt_class(rcpts):
         c.add('none')
     if len(rcpts) != len(set(rcpts)):
         c.add('dup')
+    if len(rcpts) > 8:
+        c.add('many')
     doms = set()
     for r in rcpts:
-        if '@' not in r:
+        if r == '':
+            c.add('empty-string')
+        elif '@' not in r:
             c.add('no-at')
         elif r.endswith('@'):
             c.add('empty-domain')
@@ -439,25 +736,77 @@ def rcpt_class(rcpts):
             doms.add(r.rsplit('@', 1)[1].lower())
             if r.count('@') > 1:
                 c.add('two-at')
+        if any(ord(ch) > 127 for ch in r):
+            c.add('utf8')
     if len(doms) > 1:
         c.add('multi-domain')
     return '+'.join(sorted(c)) or 'plain'
 
 
+def hdr_class(case):
+    """Features of the original header block (a classifier over the raw fields)."""
+    c = set()
+    fields = header_fields(case)
+    if not fields:
+        return 'none'
+    names = []
+    for f in fields:
+        for part in re.split(br'\r\n(?=[^ \t])', f.rstrip(b'\r\n')):
+            first = part.split(b'\r\n')[0]
+            if b':' not in first or first[:1] in (b' ', b'\t'):
+                c.add('no-header-line')
+                continue
+            name, value = part.split(b':', 1)
+            name = name.strip().lower()
+            names.append(name)
+            if name in (b'date', b'message-id') and not value.strip():
+                c.add('empty-' + ('date' if name == b'date' else 'mid'))
+            elif name not in (b'date', b'message-id') and (b'date' in name or b'message-id' in name or
+                                                          b'date:' in value.lower() or
+                                                          b'message-id' in value.lower()):
+                c.add('look-alike')
+            if b'\r\n' in part:
+                c.add('folded')
+            if any(b > 127 for b in part):
+                c.add('8bit')
+            if len(first) > 200:
+                c.add('long')
+    for n, lab in ((b'date', 'dup-date'), (b'message-id', 'dup-mid')):
+        if names.count(n) > 1:
+            c.add(lab)
+    if case.get('lf'):
+        c.add('bare-lf')
+    return '+'.join(sorted(c)) or 'plain'
+
+
+FLAG_DEFAULTS = (('twice', False), ('share', False), ('pool', None), ('client', 0), ('lf', False),
+                 ('direct', False))
+FLAG_NAMES = {'twice': 'second-enqueue', 'share': 'shared-policy-object', 'pool': 'store-pool',
+              'client': 'sparse-client', 'lf': 'bare-lf', 'direct': None}
+
+
 def shrink(case, clause):
-    """Greedy witness minimisation: drop chain elements, forwarding rules, recipients and headers
-    while the same clause still fails.  Gives the mechanism a stable, root-cause-shaped key."""
+    """Greedy witness minimisation: drop chain elements, forwarding rules, recipients and headers,
+    reset the configuration flags, while the same clause still fails.  Gives the mechanism a stable,
+    root-cause-shaped key."""
     cur = dict(case)
+    hkey = 'hfields' if 'hfields' in cur else 'headers'
 
     def fails(c):
         try:
             return clause in clauses(evaluate(c)[0])
         except Exception:
             return False
+    for flag, default in FLAG_DEFAULTS:
+        if cur.get(flag, default) != default:
+            cand = dict(cur)
+            cand[flag] = default
+            if fails(cand):
+                cur = cand
     changed = True
     while changed:
         changed = False
-        for key in ('chain', 'rcpts', 'headers'):
+        for key in ('chain', 'rcpts', hkey):
             i = 0
             while i < len(cur[key]):
                 cand = dict(cur)
@@ -489,12 +838,52 @@ def shrink(case, clause):
             if fails(cand):
                 cur = cand
                 break
+    # the same for the header fields: a field the failure does not need as it is becomes a plain one
+    if hkey == 'hfields':
+        for k in range(len(cur['hfields'])):
+            cand = dict(cur)
+            cand['hfields'] = cur['hfields'][:k] + [b'X-Plain: v\r\n'] + cur['hfields'][k + 1:]
+            if cur['hfields'][k] != b'X-Plain: v\r\n' and fails(cand):
+                cur = cand
     return cur
+
+
+def generator_form_mechanism(case, clause):
+    """The one root cause 'the iterable a policy generates is consumed once': the clause holds when
+    the generator-form policy returns the same envelopes as a list, and the monitor saw either a
+    generator that yielded nothing with envelopes missing afterwards, or no later policy ever applied
+    to an envelope the generator produced."""
+    if not any(s[0] == 'genpeel' for s in case['chain']):
+        return None
+    base = clause[6:] if clause.startswith('reuse-') else clause
+    alt = dict(case)
+    alt['chain'] = [['peel'] if s[0] == 'genpeel' else s for s in case['chain']]
+    try:
+        if clause in clauses(evaluate(alt)[0]):
+            return None
+        spy = {}
+        probs, info = evaluate(dict(case, share=False), spy)   # one object per chain position
+        if clause not in clauses(probs):
+            return None
+    except Exception:
+        return None
+    pols = spy['pols']
+    gens = [(i, p) for i, p in enumerate(pols) if isinstance(p, GenPeel)]
+    if base == 'rcpts' and any(p.empty_calls for _, p in gens):
+        pr = clauses(probs).get(clause)
+        if pr is not None and (not pr[2] or pr[2].get('kind') in ('lost', 'unmatched-lost')):
+            return 'generator-form-policy/empty-generator-drops-message'
+    for i, p in gens:
+        outs = set(id(e) for e in p.outs)
+        later = set(id(x) for x in pols[i + 1:])
+        if outs and later and not any(pid in later and eid in outs for pid, eid in spy['calls']):
+            return 'generator-form-policy/rest-of-chain-not-applied'
+    return None
 
 
 def is_nontrivial(case):
     kinds = [s[0] for s in case['chain']]
-    if not any(k in ('split', 'domsplit', 'peel') for k in kinds):
+    if not any(k in SPLITTERS for k in kinds):
         return False
     rc = case['rcpts']
     doms = set(r.rsplit('@', 1)[1].lower() if '@' in r else None for r in rc)
@@ -503,8 +892,10 @@ def is_nontrivial(case):
 
 def run_case(case, R):
     probs, info = evaluate(case)
-    R.eval()
+    R.eval(2 if info.get('second') else 1)
     kinds = tuple(info['kinds'])
+    hclass = hdr_class(case)
+    rclass = rcpt_class(case['rcpts'])
     if info['written']:
         R.hit('write-recorded', info['written'])
         R.count('envelopes-written', info['written'])
@@ -514,16 +905,43 @@ def run_case(case, R):
             R.hit('date-mid-judged', info['written'])
             if 'received' in kinds:
                 R.hit('received-judged', info['written'])
+                if case.get('client', 0):
+                    R.hit('sparse-client-received-judged', info['written'])
             if info['written'] > 1:
                 R.hit('alias-probed', info['written'] * 3)
                 R.hit('idgraph-walked')
             if info.get('unmatched'):
                 R.hit('unmatched-unchanged-judged', info['unmatched'])
+            if hclass not in ('plain', 'none') and ('date' in kinds or 'mid' in kinds or 'received' in kinds):
+                R.hit('odd-header-block-judged', info['written'])
+            if info.get('bytes_compared'):
+                R.hit('header-bytes-compared', info['bytes_compared'])
+            if 'utf8' in rclass and len(kinds):
+                R.hit('utf8-rcpt-judged')
+            if info.get('emptied'):
+                R.hit('empty-result-rule-judged')
+            if any(s[0] == 'forward' and any('c' in _flags(r) for r in s[1]) for s in case['chain']):
+                R.hit('compiled-pattern-judged')
+            if info.get('second'):
+                R.hit('second-enqueue-judged')
+            if info.get('direct'):
+                R.hit('direct-path-compared')
+            if 'genpeel' in kinds or 'tuppeel' in kinds:
+                R.hit('generator-form-judged')
+            if case.get('pool'):
+                R.hit('store-pool-enqueue-judged')
+            if case.get('share') and len(set(json.dumps(s) for s in case['chain'])) < len(kinds):
+                R.hit('shared-policy-object-judged')
+            if info.get('input_shared'):
+                R.count('input-envelope-shares-mutable-state-with-an-output(observed,not-judged)')
     R.observe('chain-kinds', kinds)
     R.observe('chain-length-%d' % len(kinds), kinds)
-    R.observe('rcpt-class', rcpt_class(case['rcpts']))
+    R.observe('rcpt-class', rclass)
+    R.observe('hdr-class', hclass)
     R.observe('rcpt-lists', tuple(case['rcpts']))
     R.observe('written-count', info['written'])
+    R.observe('config', (case.get('pool'), bool(case.get('share')), bool(case.get('twice')),
+                         case.get('client', 0), bool(case.get('direct'))))
     R.observe('output-shape', (kinds, info['written'], tuple(info.get('got', ()))))
     R.count('written-%s' % ('1' if info['written'] == 1 else '2-3' if info['written'] <= 3 else '4+'))
     if is_nontrivial(case):
@@ -532,14 +950,30 @@ def run_case(case, R):
             R.sample({'chain': case['chain'], 'rcpts': case['rcpts'], 'written_recipients': info['got'],
                       'envelopes_written': info['written']})
     for clause, (_, what, detail) in clauses(probs).items():
+        gm = generator_form_mechanism(case, clause)
+        if gm:
+            R.violation(gm, what, {'clause': clause, 'detail': detail})
+            continue
         small = shrink(case, clause)
+        gm = generator_form_mechanism(small, clause)
+        if gm:
+            R.violation(gm, what, {'clause': clause, 'shrunk_case': small, 'detail': detail})
+            continue
         sp = clauses(evaluate(small)[0]).get(clause, (clause, what, detail))
         skinds = '+'.join(s[0] for s in small['chain']) or 'empty-chain'
         sub = ''
         if isinstance(sp[2], dict):
             sub = sp[2].get('kind') or sp[2].get('how') or ''
         mech = '%s%s/%s' % (clause, '-' + sub if sub else '', skinds)
-        if clause in ('rcpts', 'crash'):
+        base = clause[6:] if clause.startswith('reuse-') else clause
+        if base in ('rcpts', 'crash', 'direct-rcpts', 'direct-crash'):
             mech += '/rcpts-' + rcpt_class(small['rcpts'])
+        if header_fields(small) and hdr_class(small) != 'plain':
+            mech += '/hdr-' + hdr_class(small)       # the failure needs an odd header block
+        for flag, default in FLAG_DEFAULTS:
+            if small.get(flag, default) != default and FLAG_NAMES[flag] and \
+                    not (flag == 'twice' and clause.startswith('reuse-')) and \
+                    not (flag == 'lf' and header_fields(small)):
+                mech += '/' + FLAG_NAMES[flag]
         R.violation(mech, sp[1], {'shrunk_case': small, 'shrunk_detail': sp[2], 'original_what': what,
                                   'original_detail': detail})
